@@ -155,6 +155,24 @@ fn step(st: &mut St, f: &[&str]) -> String {
             let rules = IgnoreRules::from_patterns(Path::new("/"), None, pats);
             show_result(rules.check(Path::new(&unhex(p)))).into()
         }
+        ["checkm", p, rest @ ..] => {
+            // the rule set is built the way the walkers build it: one `add_patterns` (= `merge_with`) per ignore file,
+            // consecutive pairs with the same source form one file
+            let rules = IgnoreRules::empty(Path::new("/"), None);
+            let mut i = 0;
+            let pairs: Vec<&[&str]> = rest.chunks(2).filter(|c| c.len() == 2).collect();
+            while i < pairs.len() {
+                let mut j = i;
+                let mut file = vec![];
+                while j < pairs.len() && pairs[j][0] == pairs[i][0] {
+                    file.push(Pattern::new(parse_src(pairs[j][0], ".xvcignore"), &unhex(pairs[j][1])));
+                    j += 1;
+                }
+                rules.add_patterns(file).unwrap();
+                i = j;
+            }
+            show_result(rules.check(Path::new(&unhex(p)))).into()
+        }
         ["walk", t] => {
             let root = st.tree(t, XVCIGNORE_FILENAME);
             let paths = serial_walk(&root);
